@@ -712,6 +712,19 @@ func Extremes() []Named {
 			{IDField("e", 1), {N: "a", Len: 2, Terms: []Term{{T: "x", Freq: 2, Locs: locs[:1]}}}},
 		}
 		out = append(out, Named{Name: "manylocs", Batch: b})
+		// 65 535 / 65 536 / 65 537 locations in one posting (16-bit counters), each followed by a
+		// posting of the same term with locations of its own
+		var many []Loc
+		for i := 0; i < 65537; i++ {
+			many = append(many, Loc{P: i + 1, S: i * 3, E: i*3 + 2})
+		}
+		var w []Doc
+		for k, n := range []int{65535, 65536, 65537} {
+			w = append(w,
+				Doc{IDField("e", 2*k), {N: "a", Len: n, Terms: []Term{{T: "x", Freq: n, Locs: many[:n]}}}},
+				Doc{IDField("e", 2*k+1), {N: "a", Len: 3, Terms: []Term{{T: "x", Freq: 3, Locs: []Loc{{P: 7, S: 1000000 + k, E: 1000003 + k}, {P: 9, S: 5, E: 6}}}}}})
+		}
+		out = append(out, Named{"locs-65537", w, true})
 	}
 	// stored values that make one 128-document block exceed 1 MiB (uncompressed): a single 1.2 MiB
 	// value that is NOT in the last document, and a hundred 11 KiB values
